@@ -39,7 +39,8 @@ func TestCheck(t *testing.T) {
 		"(seqtick) the same with the periodic cleaner ticking at operation instants (quiesced after each advance); "+
 		"(conc) 2-8 goroutines issuing the operations at the same virtual instants on 1-4 hot keys plus untouched keys while the periodic cleaner ticks at those instants, judged offline from call/return stamps of one atomic counter. "+
 		"(stop) 2-4 goroutines call Stop at the same virtual instant - mostly a tick instant of the periodic cleaner with 100-20000 expired entries waiting, so that the cleaner is inside a long Cleanup pass - after seeded Gosched delays, while other goroutines yield in a storm and race Set/Get/Delete/Cleanup; every returning Stop call takes a goroutine dump at once and is judged on its own (cleaner still inside its loop or inside Cleanup = violation; cleaner in its deferred exit path = not judged), followed by one more Stop after all returned. "+
-		"Non-trivial: (lock-step) at least one hit and one miss of a key that had been set; (conc) at least one pair of operations overlapping in logical time on one key, or an operation at a tick instant; (stop) at least two Stop calls were issued at one instant. Distinct = distinct operation list / schedule.")
+		"(resetrace) 6-18 rounds on one cache: the root stores fresh unique values under 1-48 old keys, then behind a spin barrier 1-2 goroutines call Reset (or a manual Cleanup) while 1-3 churners Set fresh keys (map growth), Delete them, overwrite and read old keys, under GOMAXPROCS 2/3/4/8/default; every old key is probed after all returned; judged by the concurrent-mode oracle (a Get starting after a Reset returned must not return a value whose Set returned before that Reset started). "+
+		"Non-trivial: (lock-step) at least one hit and one miss of a key that had been set; (conc) at least one pair of operations overlapping in logical time on one key, or an operation at a tick instant; (stop) at least two Stop calls were issued at one instant; (resetrace) at least one Set of a fresh key overlapped a Reset/Cleanup in logical time. Distinct = distinct operation list / schedule.")
 	rec.Note("require", []string{
 		"seq.boundary.hit_1ns_before_expiry", "seq.boundary.miss_exactly_at_expiry", "seq.boundary.miss_after_expiry",
 		"seq.set.capped_by_maxttl", "seq.set.overwrite_shorter", "seq.set.overwrite_longer",
@@ -49,6 +50,7 @@ func TestCheck(t *testing.T) {
 		"conc.overlap.same_key_pairs", "stop.cleaner_gone",
 		"stop.concurrent_calls_checked", "stop.concurrent.calls_at_tick_instant", "stop.concurrent.called_while_cleaner_in_cleanup",
 		"stop.concurrent.cleaner_gone", "stop.second_stop_checked", "stopmode.racer_ops",
+		"resetrace.fresh_key_sets_overlapping_reset", "resetrace.old_key_probes_after_reset", "resetrace.get.miss_reset",
 	})
 	rec.Observe("whether Cleanup physically removed an expired entry (memory reclamation) is not observable through Get and is not judged")
 	rec.Observe("Set with ttl <= 0 panics by documentation and is never generated")
@@ -79,6 +81,10 @@ func TestCheck(t *testing.T) {
 	for i := 0; i < nstop; i++ {
 		plans = append(plans, pl{mode: "stop"})
 	}
+	nrr := mon.Pick(360, 14000)
+	for i := 0; i < nrr; i++ {
+		plans = append(plans, pl{mode: "resetrace"})
+	}
 	rec.Planned(len(plans))
 	// debugging aid only (never set by the driver): restrict the run to some modes
 	only := os.Getenv("VERIF_C15_MODES")
@@ -96,6 +102,8 @@ func TestCheck(t *testing.T) {
 			runConc(t, idx, genConc(rng))
 		case "stop":
 			runStop(t, idx, genStop(rng))
+		case "resetrace":
+			runResetRace(t, idx, genResetRace(rng))
 		}
 	}
 }
